@@ -34,6 +34,10 @@ fn main() {
       let t0 = Instant::now();
       let rep = match n {
         1 | 2 | 3 | 4 | 5 | 7 | 8 | 9 | 19 => tmverif::props_mapper::check(n, &cfg, &findings),
+        6 => tmverif::props_c06::check(&cfg, &findings),
+        10 | 11 | 12 => tmverif::props_loop::check_trace_prop(n, &cfg, &findings),
+        20 => tmverif::props_loop::check_c20(&cfg, &findings),
+        13 => tmverif::props_c13::check(&cfg, &findings),
         _ => {
           eprintln!("property {} has no check", id);
           std::process::exit(2);
@@ -46,6 +50,9 @@ fn main() {
       let file = &args[3];
       let r = match n {
         1 | 2 | 3 | 4 | 5 | 7 | 8 | 9 | 19 => tmverif::props_mapper::replay(n, file, &findings),
+        6 => tmverif::props_c06::replay(file),
+        10 | 11 | 12 | 20 => tmverif::props_loop::replay(n, file),
+        13 => tmverif::props_c13::replay(file),
         _ => {
           eprintln!("property {} has no replay", id);
           std::process::exit(2);
